@@ -5,5 +5,11 @@ HERE=$(cd "$(dirname "$0")" && pwd)
 export GOFLAGS=-mod=mod GOPROXY=off GOSUMDB=off GOTOOLCHAIN=local
 cd "$HERE/mc"
 go build -tags verif -o /dev/null ./cmd/verif
-go test -tags verif -count=1 ./explore/... ./env/... ./report/... ./ref/... 2>&1 | tail -20
+# warm the caches of the scheduler-overlay and the -race variants as well
+OVL=$(mktemp -d /var/tmp/verif-setup.XXXXXX)
+trap 'rm -rf "$OVL"' EXIT
+go run ./cmd/overlaygen -repo /repo -out "$OVL/overlay" >/dev/null
+go build -tags verif -overlay "$OVL/overlay/overlay.json" -ldflags "-X main.schedOverlay=1" -o /dev/null ./cmd/verif
+go build -race -tags verif -o /dev/null ./cmd/verif
+go test -tags verif -count=1 ./explore/... ./sched/... ./env/... ./report/... ./ref/... 2>&1 | tail -20
 echo "setup ok"
